@@ -199,13 +199,14 @@ func (scanner *memSortingScanner[T]) Scan(store *ObjectStore[T], query ast.Query
 
 	cursor := store.iteratorF()
 
+	// nothing to iterate: test before the cursor is used
+	if cursor == nil {
+		return nil, 0, nil
+	}
+
 	rowCursor := &ObjectCursor[T]{
 		store:   store,
 		current: cursor.Current(),
-	}
-
-	if cursor == nil {
-		return nil, 0, nil
 	}
 
 	// Longer term, if we're looking for better performance, we could make a version of llrb which takes a comparator
